@@ -6,7 +6,7 @@ patch="$1"; shift
 cd /repo || exit 3
 if ! git diff --quiet; then echo "/repo has uncommitted changes"; exit 3; fi
 if ! git apply "$patch" 2>/tmp/mutant-apply.err; then
-  if ! git apply -3 "$patch" 2>>/tmp/mutant-apply.err; then echo "PATCH-DOES-NOT-APPLY $patch"; cat /tmp/mutant-apply.err | head -5; git checkout -- . ; exit 4; fi
+  echo "PATCH-DOES-NOT-APPLY $patch"; head -5 /tmp/mutant-apply.err; git checkout -- . ; exit 4
 fi
 trap 'cd /repo && git checkout -- . && git clean -fdq -- . >/dev/null 2>&1' EXIT
 cd /verif
